@@ -168,7 +168,9 @@ def check_streams(case):
       script[idx] = {'open': op[1], 'wrtes': list(op[2]), 'close': bool(op[3])}
       before_hosts = len([x for x in dev.log if x[0] == 'host'])
       try:
-        s = conn.open_stream('svc%d:' % idx, timeout_ms=150)
+        # the device answers at once except in the silent cases: a generous real-time bound keeps a loaded machine
+        # from turning into a spurious timeout
+        s = conn.open_stream('svc%d:' % idx, timeout_ms=150 if how in ('WRONGID', 'SILENT') else 5000)
         got = ('stream', s)
       except Exception as e:  # pylint: disable=broad-except
         got = ('err', type(e).__name__, str(e)[:80])
@@ -232,6 +234,8 @@ def check_streams(case):
         continue
       ent = live[op[1] % len(live)]
       s = ent['stream']
+      if any(e is not ent and e['local'] == ent['local'] and streams.index(e) > streams.index(ent) for e in streams):
+        continue  # a stale stream object whose id has since been reused by a newer stream: outside the statement
       if kind == 'close':
         before = count_host(dev, 'CLSE', ent['local'])
         try:
